@@ -281,6 +281,31 @@ def _flock(fd, op):
     return c.run("flock", [u], lambda: realf(fd, op))
 
 
+def _fd_path(fd):
+    try:
+        return os.readlink("/proc/self/fd/%d" % fd)
+    except OSError:
+        return None
+
+
+def _wrap_fdcopy(name, out_index):
+    """os.sendfile(out, in, ...) / os.copy_file_range(src, dst, ...): shutil's fast copy
+    writes into an open descriptor without going through the file object."""
+    realf = _REAL[name]
+
+    def w(*a, **k):
+        c = _CTX
+        if c is None or not c.enabled or not c.intercepts() or getattr(c.inside, "v", False):
+            return realf(*a, **k)
+        p = _fd_path(a[out_index]) if len(a) > out_index and isinstance(a[out_index], int) else None
+        u = c.under(p) if p else None
+        if u is None:
+            return realf(*a, **k)
+        return c.run("f.write", [u], lambda: realf(*a, **k), lambda r: "n%s" % r)
+    w.__name__ = name
+    return w
+
+
 def _listdir(path="."):
     realf = _REAL["os.listdir"]
     c, ps = _ctx_for(path)
@@ -313,6 +338,12 @@ def install():
             setattr(os, n, _wrap_path1(n))
         for n in ("rename", "replace", "link", "symlink"):
             setattr(os, n, _wrap_path2(n))
+        if hasattr(os, "sendfile"):
+            _REAL["sendfile"] = os.sendfile
+            os.sendfile = _wrap_fdcopy("sendfile", 0)
+        if hasattr(os, "copy_file_range"):
+            _REAL["copy_file_range"] = os.copy_file_range
+            os.copy_file_range = _wrap_fdcopy("copy_file_range", 1)
         os.open = _os_open
         os.listdir = _listdir
         os.scandir = _scandir
